@@ -873,8 +873,14 @@ func init() {
 					"empty_size_line":   append([]byte(""), restAfterSize...),
 					"bad_base64":        append(append(append([]byte{}, body[:sizeLineEnd+1]...), []byte("@@@@\n")...), body[sizeLineEnd+1:]...),
 					"bad_base64_pad":    append(append(append([]byte{}, body[:sizeLineEnd+1]...), []byte("QUJD=\n")...), body[sizeLineEnd+1:]...),
+					// a proof line is ONE base64 string: blanks are not part of the alphabet, wherever they sit
+					"b64_two_on_a_line":  append(append(append([]byte{}, body[:sizeLineEnd+1]...), []byte("QUJD QUJD\n")...), body[sizeLineEnd+1:]...),
+					"b64_tab_separated":  append(append(append([]byte{}, body[:sizeLineEnd+1]...), []byte("QUJD\tQUJD\n")...), body[sizeLineEnd+1:]...),
+					"b64_trailing_blank": append(append(append([]byte{}, body[:sizeLineEnd+1]...), []byte("QUJD \n")...), body[sizeLineEnd+1:]...),
+					"b64_leading_blank":  append(append(append([]byte{}, body[:sizeLineEnd+1]...), []byte(" QUJD\n")...), body[sizeLineEnd+1:]...),
+					"blank_only_line":    append(append(append([]byte{}, body[:sizeLineEnd+1]...), []byte(" \n")...), body[sizeLineEnd+1:]...),
 				}
-				for _, name := range []string{"no_old_keyword", "other_keyword", "no_digits", "letters_only", "junk_after_digits", "negative", "overflow", "empty_size_line", "bad_base64", "bad_base64_pad"} {
+				for _, name := range []string{"no_old_keyword", "other_keyword", "no_digits", "letters_only", "junk_after_digits", "negative", "overflow", "empty_size_line", "bad_base64", "bad_base64_pad", "b64_two_on_a_line", "b64_tab_separated", "b64_trailing_blank", "b64_leading_blank", "blank_only_line"} {
 					if !want(name, 0) {
 						continue
 					}
